@@ -265,7 +265,7 @@ func (ex *Exec) reach(id string) {
 	if !ex.sampled[id] && len(ex.St.Samples) < 12 {
 		ex.sampled[id] = true
 		// one model of the path condition here, as a written-out case
-		r, m := ex.S.Check(ex.pc, ex.sampleVars())
+		r, m := ex.check(ex.pc, ex.sampleVars())
 		if r == Sat {
 			vals := map[string]interface{}{}
 			for _, v := range ex.sampleVars() {
@@ -308,7 +308,7 @@ func (ex *Exec) assert(id string, c *Term) {
 	}
 	neg := ex.C.Not(c)
 	lits := append(append([]*Term{}, ex.pc...), neg)
-	r, m := ex.S.Check(lits, ex.allVars())
+	r, m := ex.check(lits, ex.allVars())
 	switch r {
 	case Unsat:
 		ex.St.Discharged++
@@ -335,7 +335,7 @@ func (ex *Exec) reportViolation(id, kind, msg string, m Model) {
 		return
 	}
 	if m == nil {
-		r, mm := ex.S.Check(ex.pc, ex.allVars())
+		r, mm := ex.check(ex.pc, ex.allVars())
 		if r == Sat {
 			m = mm
 		} else {
